@@ -63,6 +63,8 @@ type Exec struct {
 	ninst     int
 	skNest    int
 	absReads  []absRead
+	instSeen  map[[3]int]bool
+	sumBySrc  map[string][]string
 	idxElemSort map[int]map[string]bool
 }
 
@@ -114,6 +116,7 @@ func (x *Exec) oblige(st *State, kind string, goal *Term, pos token.Pos, note st
 		x.linkAtTerms(goal)
 		x.typeReadsIn(st, goal)
 		x.interestFromGoal(st, goal)
+		x.unfoldSumsIn(st, goal)
 	}
 	posStr := posOf(x.prog.fset, pos)
 	// inlined callees: report the chain of call sites, outermost first
@@ -307,6 +310,17 @@ func (x *Exec) typeFact(st *State, v *Term, t types.Type, depth int) *Term {
 		ref := ifRef(v)
 		cs := []*Term{Ge(tag, IntLit(0)), Implies(Eq(tag, IntLit(0)), Eq(ref, IntLit(0)))}
 		impls := x.prog.implementers(t)
+		if impls == nil {
+			// `any` and interfaces from outside the module: whatever pointer type of the module is inside, it is allocated
+			x.prog.ensureRtTypes()
+			for _, it := range x.prog.rtList {
+				if _, isPtr := it.Underlying().(*types.Pointer); isPtr {
+					if _, named := it.(*types.Pointer).Elem().(*types.Named); named {
+						cs = append(cs, Implies(Eq(tag, IntLit(int64(TE.TagOf(it)))), And(Gt(ref, IntLit(0)), Lt(ref, st.alloc))))
+					}
+				}
+			}
+		}
 		if impls != nil {
 			alts := []*Term{Eq(tag, IntLit(0))}
 			for _, it := range impls {
@@ -925,7 +939,7 @@ func (x *Exec) evalClausesAt(fr *Frame, st *State, cls []*Clause, over map[ssa.V
 			unsupportedf("clause %q does not evaluate to a term", cl.Src)
 		}
 		if os.Getenv("GOVC_DEBUG") != "" {
-			fmt.Fprintf(os.Stderr, "DEBUG %s %s clause %q => %s\n", fr.fn.Name(), kind, cl.Src, truncate(v.T.String(), 600))
+			fmt.Fprintf(os.Stderr, "DEBUG %s %s clause %q => %s\n", fr.fn.Name(), kind, cl.Src, v.T.StringN(600))
 		}
 		out = append(out, evalRes{v.T, cl})
 	}
@@ -1721,6 +1735,10 @@ func (x *Exec) sumVar(name string, sort *Sort) *Term {
 // sumTerm: finite sums as an uninterpreted function of the bounds (and of outer bound variables), defined by
 // its two unfolding axioms: sum(lo,hi) = 0 for hi <= lo, and sum(lo,hi) = sum(lo,hi-1) + body[hi-1] for lo < hi.
 func (x *Exec) sumTerm(st *State, bv, body, lo, hi *Term) *Term {
+	return x.sumTermSrc(st, bv, body, lo, hi, "")
+}
+
+func (x *Exec) sumTermSrc(st *State, bv, body, lo, hi *Term, src string) *Term {
 	free := freeBound(body, map[int]map[int]bool{})
 	var outer []*Term
 	var collect func(t *Term)
@@ -1742,7 +1760,15 @@ func (x *Exec) sumTerm(st *State, bv, body, lo, hi *Term) *Term {
 	if x.sumDefs == nil {
 		x.sumDefs = map[string]*sumDef{}
 	}
-	x.sumDefs[name] = &sumDef{bv: bv, body: body, outer: outer}
+	if _, known := x.sumDefs[name]; !known {
+		x.sumDefs[name] = &sumDef{bv: bv, body: body, outer: outer, src: src}
+		if src != "" {
+			if x.sumBySrc == nil {
+				x.sumBySrc = map[string][]string{}
+			}
+			x.sumBySrc[src] = append(x.sumBySrc[src], name)
+		}
+	}
 	args := append(append([]*Term{}, outer...), lo, hi)
 	var sorts []*Sort
 	for _, a := range args {
@@ -1784,6 +1810,76 @@ type sumDef struct {
 	bv    *Term
 	body  *Term
 	outer []*Term
+	src   string // source identity of the sum expression (spec function and position)
+}
+
+// linkSums: the same source-level sum evaluated in two program states gives two uninterpreted functions (the
+// summands read different heap versions). For an application A(args, lo, hi) and each sibling B of the same source
+// expression:  A(args,lo,hi) == B(args,lo,hi)  or  the summands differ at some index w in [lo,hi)
+// (extensionality of finite sums, with a named witness). The solver then only has to show, by the usual frame
+// reasoning at the single index w, that the summands agree.
+func (x *Exec) linkSums(st *State, app *Term) {
+	def, ok := x.sumDefs[app.op]
+	if !ok || def.src == "" || hasFreeBound(app) {
+		return
+	}
+	n := len(def.outer)
+	if len(app.args) != n+2 {
+		return
+	}
+	actuals := app.args[:n]
+	lo, hi := app.args[n], app.args[n+1]
+	for _, other := range x.sumBySrc[def.src] {
+		if other == app.op {
+			continue
+		}
+		od := x.sumDefs[other]
+		if od == nil || len(od.outer) != n {
+			continue
+		}
+		sameSorts := true
+		for i := range od.outer {
+			if od.outer[i].sort != def.outer[i].sort {
+				sameSorts = false
+			}
+		}
+		if !sameSorts {
+			continue
+		}
+		key := [2]int{app.id, -1000 - len(other)*131 - int(other[len(other)-1])}
+		k3 := [3]int{app.id, -77, hashString(other)}
+		_ = key
+		if x.instSeen == nil {
+			x.instSeen = map[[3]int]bool{}
+		}
+		if x.instSeen[k3] {
+			continue
+		}
+		x.instSeen[k3] = true
+		sib := App(other, SInt, append(append([]*Term{}, actuals...), lo, hi)...)
+		w := Fresh("sumw", SInt)
+		subA := map[int]*Term{def.bv.id: w}
+		subB := map[int]*Term{od.bv.id: w}
+		for i := range def.outer {
+			subA[def.outer[i].id] = actuals[i]
+			subB[od.outer[i].id] = actuals[i]
+		}
+		ba := substTerm(def.body, subA)
+		bb := substTerm(od.body, subB)
+		x.ctx.facts = append(x.ctx.facts, Or(Eq(app, sib), And(Le(lo, w), Lt(w, hi), Neq(ba, bb))))
+		x.linkAtTerms(ba)
+		x.linkAtTerms(bb)
+		x.typeReadsIn(st, ba)
+		x.typeReadsIn(st, bb)
+	}
+}
+
+func hashString(s string) int {
+	h := 0
+	for i := 0; i < len(s); i++ {
+		h = h*31 + int(s[i])
+	}
+	return h
 }
 
 // unfoldSum adds the one-step unfolding of a ground sum application (eager instance of the defining axioms).
@@ -1810,6 +1906,7 @@ func (x *Exec) unfoldSum(st *State, app *Term) {
 		Implies(Le(hi, lo), Eq(app, IntLit(0))),
 		Implies(Lt(lo, hi), Eq(app, Add(prev, last)))))
 	x.linkAtTerms(last)
+	x.linkSums(st, app)
 }
 
 // substTerm replaces bound variables (by id) in t.
